@@ -57,6 +57,12 @@ def jobs(tier):
     for version in (1, 2):
         out.append(("v%d.hostile-name-into-search-dir" % version, "job_hostile", dict(version=version)))
         out.append(("v%d.two-releases-same-destination" % version, "job_two_releases", dict(version=version, releases=2)))
+    for version in (1, 2, 3):
+        # entries named like the torrent itself; two files with one base name in different directories (one piece can
+        # hold both)
+        for shape, layout in (("selfname", "flat"), ("selfdir", "flat"), ("samename2", "two"), ("samename2", "mirror")):
+            out.append(("v%d.%s.%s.pre-empty.decoy-none" % (version, shape, layout), "job",
+                        dict(version=version, shape=shape, P=16384, K=1, layout=layout, decoy="none", pre="empty")))
     out.extend(rw.matrix_rows(tier, "C14"))
     return out
 
